@@ -211,6 +211,14 @@ def specStep (l : List Item) : Op → List Item
   | .revRemove x | .remove x => l.erase x
   | _ => l
 
+/-- the row `SELECT .. LIMIT 1` returns: one of the linked items, none only when there is none -/
+def probeOk (db : List Item) : Option Item → Prop
+  | some x => x ∈ db
+  | none => db = []
+
+instance (db : List Item) (p : Option Item) : Decidable (probeOk db p) := by
+  cases p <;> simp only [probeOk] <;> infer_instance
+
 /-- what the callers of the bookkeeping procedures guarantee: both ends of the relationship agree (C12), an item is only
     handled after it was loaded, `Set.load(obj, items)` has resolved the operands of add / remove against the database -/
 def OpValid (c : Coll) (l : List Item) : Op → Prop
@@ -220,7 +228,7 @@ def OpValid (c : Coll) (l : List Item) : Op → Prop
   | .add x => x ∈ l → x ∈ c.sd.items
   | .remove x => x ∈ l → x ∈ c.sd.items
   | .isEmpty probe =>       -- the query runs after the implicit flush, and `probe` is what it returned
-    askEmpty c.sd = true → c.sd.removed = [] ∧ (match probe with | some x => x ∈ c.db | none => c.db = [])
+    askEmpty c.sd = true → c.sd.removed = [] ∧ probeOk c.db probe
   | _ => True
 
 /-- the two places where the code as found goes wrong are avoided, or repaired -/
